@@ -1282,6 +1282,8 @@ func (p *PX) havocLoopKeep(fr *pxFrame, lp *loopInfo, st *pxState, keep map[stri
 						st.env[fresh.key] = top.Intersect(ISet{{new(big.Int).Sub(top.Min(), big.NewInt(step)), is.Max()}})
 						p.downCounterBounds(fresh, init, st)
 					}
+					// a counter stopped by `== c` / `!= c` does not step over c (pxeqexit.go)
+					st.env[fresh.key] = eqExitBound(lp, phi, step, is, st.env[fresh.key])
 				}
 			}
 		}
